@@ -7,11 +7,16 @@
 (* either goes on or returns an error - it never crashes, hangs or         *)
 (* exhausts memory (those outcomes are not actions of this specification,  *)
 (* so a recorded run that contains one is rejected).                       *)
+(* A mutated response belongs to a class (MutantClasses): the level at     *)
+(* which it is applied - on the wire, in the plaintext of a tunnel message *)
+(* (65..71), or in the signed payload of 61 / 63 / 65 with the signature    *)
+(* repaired - and the mutation family (random, struct, inner, volume).     *)
+(* Client_Gen enumerates every (role, position, occurrence, class).        *)
 (***************************************************************************)
-EXTENDS Naturals, Sequences, TLC
+EXTENDS Naturals, Sequences, TLC, MutantClasses
 
 Positions == [DI |-> <<11, 13>>, TO0 |-> <<21, 23>>, TO1 |-> <<31, 33>>,
-              TO2 |-> <<61, 63, 65, 67, 69, 69, 71>>]
+              TO2 |-> <<61, 63, 65, 67, 69, 69, 69, 71>>]     \* 69: devmod answered in two rounds, then one owner module
 Roles == DOMAIN Positions
 
 VARIABLES role, at, state     \* state: running | done | failed
@@ -29,7 +34,9 @@ RecvMutated ==
     /\ state = "running"
     /\ \/ state' = "failed" /\ UNCHANGED <<role, at>>
        \/ RecvHonest
-Next == RecvHonest \/ RecvMutated
+(* ... of a given class: only where that class exists *)
+RecvMutatedCls(lvl, fam) == CliApplies(Positions[role][at], lvl, fam) /\ RecvMutated
+Next == RecvHonest \/ RecvMutated \/ \E lvl \in Levels, fam \in Families : RecvMutatedCls(lvl, fam)
 Spec == Init /\ [][Next]_vars /\ WF_vars(Next)
 
 TypeOK == state \in {"running", "done", "failed"} /\ at \in 1..Len(Positions[role])
